@@ -46,6 +46,10 @@ def gate_specs() -> dict[str, dict[str, Any]]:
         # a finished leaf beside a gate that has a downstream stage
         "gate-then-stage-beside-leaf": {"name": "gate-then-stage-beside-leaf", "stages": [stage("a", [], [ok()]), stage("g", ["a"], [g()]), stage("c", ["g"], [ok()]),
                                                                                             stage("l", ["a"], [ok()])], "gates": ["g"]},
+        # behind the gate a stage that will be skipped feeds a first-of join that fires on the other branch: once the gate is
+        # released the last thing that happens in the workflow is a SkipStage
+        "gate-skip-under-firstof": {"name": "gate-skip-under-firstof", "stages": [stage("a", [], [ok()]), stage("b", ["a"], [ok()]), stage("g", ["a"], [g()]),
+                                                                                    stage("k", ["g"], [ok()], enabled=False), stage("j", ["b", "k"], [ok()], join="DISC")], "gates": ["g"]},
         "two-gates": {"name": "two-gates", "stages": [stage("a", [], [ok()]), stage("g", ["a"], [g()]), stage("h", ["g"], [g(), ok()]), stage("z", ["h"], [ok()])],
                       "gates": ["g", "h"]},
     }
